@@ -94,42 +94,28 @@ _KEEP = {"np", "range", "len", "isinstance", "type", "int", "enumerate", "ValueE
          "BondList", "AtomArray", "AtomArrayStack", "find_connected", "True", "False", "None"}
 
 
-class _Binder(ast.NodeVisitor):
-    """locally bound names (assignment / loop / comprehension targets) in source order; parameters keep their names"""
-
-    def __init__(self, params):
-        self.params, self.order = set(params), []
-
-    def _bind(self, t):
-        for n in ast.walk(t):
-            if isinstance(n, ast.Name) and n.id not in self.params and n.id not in self.order:
-                self.order.append(n.id)
-
-    def visit_Assign(self, node):
-        for t in node.targets:
-            if isinstance(t, (ast.Name, ast.Tuple)):
-                self._bind(t)
-        self.generic_visit(node)
-
-    def visit_For(self, node):
-        self._bind(node.target)
-        self.generic_visit(node)
-
-    def visit_Global(self, node):
-        raise ValueError("global statement in a modelled function: " + ", ".join(node.names))
-
-
 class _Norm(ast.NodeTransformer):
-    def __init__(self, ren):
-        self.ren = ren
+    """expression-level normalisation under a renaming environment"""
+
+    def __init__(self, env, fresh, helpers):
+        self.env, self.fresh, self.helpers = env, fresh, helpers
 
     def visit_Name(self, node):
-        return ast.copy_location(ast.Name(id=self.ren.get(node.id, node.id), ctx=node.ctx), node)
+        nid = self.env.get(node.id, self.helpers.get(node.id, node.id))
+        return ast.copy_location(ast.Name(id=nid, ctx=node.ctx), node)
 
-    def visit_Raise(self, node):              # messages are not behaviour the property speaks about
-        exc = node.exc
-        cls = exc.func if isinstance(exc, ast.Call) else exc
-        return ast.copy_location(ast.Raise(exc=cls, cause=None), node)
+    def _comp(self, node):
+        saved = dict(self.env)
+        for g in node.generators:
+            for n in ast.walk(g.target):
+                if isinstance(n, ast.Name):
+                    self.env[n.id] = self.fresh()
+        out = self.generic_visit(node)
+        self.env.clear()
+        self.env.update(saved)
+        return out
+
+    visit_ListComp = visit_SetComp = visit_GeneratorExp = visit_DictComp = _comp
 
     def visit_Call(self, node):
         self.generic_visit(node)
@@ -158,26 +144,115 @@ class _Norm(ast.NodeTransformer):
         return node
 
 
-def _norm_body(fn):
-    """The statements of a function, docstring / comments / messages dropped, local names alpha-renamed (v0, v1, ...),
-    `x.any()` written `np.any(x)`, operands of `|` sorted.  One string per source line of the normal form."""
+def _norm_body(fn, helpers=None):
+    """Normal form of a function body, invariant under harmless maintenance (pass 8):
+    docstrings, comments, annotations, `assert`s and the message arguments of `raise` are dropped; every binding at the
+    top level of the function (also a re-binding of a parameter) introduces a fresh name `v0, v1, ...` (SSA-like), names
+    bound inside loops / branches are renamed positionally; parameters of private helpers are renamed `p0, p1, ...`
+    (public parameter names are API); private helpers are referred to as `_h0, _h1, ...` by order of first use;
+    `x.any()` is written `np.any(x)`; operands of `|` are sorted.  Literals, operators, call targets, keyword names,
+    statement order, exception classes and defaults stay.  One string per line of the normal form."""
+    import copy
+    fn = copy.deepcopy(fn)            # NodeTransformer works in place: never touch the tree the other extractions read
+    helpers = helpers or {}
     params = [a.arg for a in fn.args.posonlyargs + fn.args.args + fn.args.kwonlyargs]
-    body = list(fn.body)
-    if body and isinstance(body[0], ast.Expr) and isinstance(body[0].value, ast.Constant) and isinstance(body[0].value.value, str):
-        body = body[1:]
-    b = _Binder(params)
-    for st in body:
-        b.visit(st)
-    ren = {n: f"v{k}" for k, n in enumerate(b.order) if n not in _KEEP}
+    private = fn.name.startswith("_")
+    env = {p: (f"p{k}" if private else p) for k, p in enumerate(params)}
+    counter = [0]
+
+    def fresh():
+        counter[0] += 1
+        return f"v{counter[0] - 1}"
+
+    def expr(e):
+        return ast.fix_missing_locations(_Norm(env, fresh, helpers).visit(e)) if e is not None else None
+
+    def bind(target, top):
+        if isinstance(target, ast.Name):
+            if top or target.id not in env:
+                env[target.id] = fresh()
+            return ast.Name(id=env[target.id], ctx=ast.Store())
+        if isinstance(target, (ast.Tuple, ast.List)):
+            return type(target)(elts=[bind(t, top) for t in target.elts], ctx=ast.Store())
+        return expr(target)
+
+    def block(stmts, top):
+        out = []
+        for st in stmts:
+            if isinstance(st, ast.Global):
+                raise ValueError("global statement in a modelled function: " + ", ".join(st.names))
+            if isinstance(st, ast.Assert):
+                continue
+            if isinstance(st, ast.Expr) and isinstance(st.value, ast.Constant) and isinstance(st.value.value, str):
+                continue
+            if isinstance(st, ast.AnnAssign):
+                st = ast.Assign(targets=[st.target], value=st.value) if st.value is not None else None
+                if st is None:
+                    continue
+            if isinstance(st, ast.Assign):
+                val = expr(st.value)
+                out.append(ast.Assign(targets=[bind(t, top) for t in st.targets], value=val))
+            elif isinstance(st, ast.For):
+                it = expr(st.iter)
+                tg = bind(st.target, True)
+                out.append(ast.For(target=tg, iter=it, body=block(st.body, False) or [ast.Pass()], orelse=block(st.orelse, False)))
+            elif isinstance(st, ast.While):
+                out.append(ast.While(test=expr(st.test), body=block(st.body, False) or [ast.Pass()], orelse=block(st.orelse, False)))
+            elif isinstance(st, ast.If):
+                out.append(ast.If(test=expr(st.test), body=block(st.body, False) or [ast.Pass()], orelse=block(st.orelse, False)))
+            elif isinstance(st, ast.Raise):
+                exc = st.exc
+                cls = exc.func if isinstance(exc, ast.Call) else exc
+                out.append(ast.Raise(exc=expr(cls), cause=None))
+            elif isinstance(st, (ast.Return, ast.Expr, ast.AugAssign, ast.Pass, ast.Break, ast.Continue, ast.Delete)):
+                out.append(expr(st))
+            elif isinstance(st, ast.With):
+                items = [ast.withitem(context_expr=expr(i.context_expr),
+                                      optional_vars=bind(i.optional_vars, top) if i.optional_vars else None) for i in st.items]
+                out.append(ast.With(items=items, body=block(st.body, False) or [ast.Pass()]))
+            elif isinstance(st, ast.Try):
+                out.append(ast.Try(body=block(st.body, False), handlers=[ast.ExceptHandler(type=expr(h.type), name=None, body=block(h.body, False) or [ast.Pass()]) for h in st.handlers],
+                                   orelse=block(st.orelse, False), finalbody=block(st.finalbody, False)))
+            else:
+                raise ValueError(f"{fn.name}: statement kind {type(st).__name__} is not handled by the normaliser")
+        return out
+
     lines = []
-    for st in body:
-        st = ast.fix_missing_locations(_Norm(ren).visit(st))
-        lines += ast.unparse(st).split("\n")
+    for st in block(list(fn.body), True):
+        lines += ast.unparse(ast.fix_missing_locations(st)).split("\n")
     return lines
 
 
-def _signature(fn):
-    return fn.name + "(" + ast.unparse(fn.args) + ")"
+def _private_helpers(tree, roots):
+    """module-private functions reachable from the modelled functions, named `_h0, _h1, ...` by order of first use"""
+    defs = {n.name: n for n in tree.body if isinstance(n, ast.FunctionDef)}
+    order = []
+
+    def scan(fn):
+        for node in ast.walk(fn):
+            if isinstance(node, ast.Name) and node.id in defs and node.id.startswith("_") and node.id not in order:
+                order.append(node.id)
+                scan(defs[node.id])
+    for r in roots:
+        scan(defs[r])
+    return {name: f"_h{k}" for k, name in enumerate(order)}, defs
+
+
+def _signature(fn, alias=None):
+    """name, parameter names (positional `p0..` for private helpers) and default values; annotations are dropped"""
+    a = fn.args
+    pos = a.posonlyargs + a.args
+    private = fn.name.startswith("_")
+    names = [(f"p{k}" if private else x.arg) for k, x in enumerate(pos)]
+    defaults = [None] * (len(pos) - len(a.defaults)) + [ast.unparse(d) for d in a.defaults]
+    parts = [n if d is None else f"{n}={d}" for n, d in zip(names, defaults)]
+    if a.vararg:
+        parts.append("*" + a.vararg.arg)
+    for x, d in zip(a.kwonlyargs, a.kw_defaults):
+        parts.append(x.arg if d is None else f"{x.arg}={ast.unparse(d)}")
+    if a.kwarg:
+        parts.append("**" + a.kwarg.arg)
+    return (alias or fn.name) + "(" + ", ".join(parts) + ")"
 
 
 def _lean_str(x):
@@ -304,17 +379,40 @@ def gen_lean():
         if n_calls != 1:
             raise ValueError(f"{name}: expected exactly one `np.searchsorted(...) - k`")
         g = []
-        assigned = {n.targets[0].id: ast.unparse(n.value) for n in f.body
-                    if isinstance(n, ast.Assign) and isinstance(n.targets[0], ast.Name)}
-        for node in f.body:
-            if isinstance(node, ast.If) and any(isinstance(x, ast.Raise) for x in node.body):
-                exc = next(x for x in node.body if isinstance(x, ast.Raise)).exc
-                cmp = next((x for x in ast.walk(node.test) if isinstance(x, ast.Compare)), None)
-                if cmp is None or len(cmp.ops) != 1:
-                    raise ValueError(f"{name}: unexpected guard {ast.unparse(node.test)}")
-                rhs = ast.unparse(cmp.comparators[0])
-                rhs = assigned.get(rhs, rhs)
-                g.append((type(cmp.ops[0]).__name__ + " " + rhs, exc.func.id if isinstance(exc, ast.Call) else ast.unparse(exc)))
+        segdefs = {n.name: n for n in seg.body if isinstance(n, ast.FunctionDef)}
+
+        def collect(body, subst, assigned_outer):
+            """guards of a statement list; a call of a module-private helper as a statement is followed once, its
+            parameters standing for the caller's arguments (structural: the helper is found by what the caller calls)"""
+            assigned = dict(assigned_outer)
+            cmp_of = {}
+            for n in body:
+                if isinstance(n, ast.Assign) and isinstance(n.targets[0], ast.Name):
+                    assigned[n.targets[0].id] = ast.unparse(n.value)
+                    if isinstance(n.value, ast.Compare):
+                        cmp_of[n.targets[0].id] = n.value
+            for node in body:
+                if isinstance(node, ast.Expr) and isinstance(node.value, ast.Call) and isinstance(node.value.func, ast.Name) \
+                        and node.value.func.id.startswith("_") and node.value.func.id in segdefs:
+                    h = segdefs[node.value.func.id]
+                    hp = [a.arg for a in h.args.args]
+                    sub = {}
+                    for pn, arg in zip(hp, node.value.args):
+                        u = ast.unparse(arg)
+                        sub[pn] = assigned.get(u, subst.get(u, u))
+                    collect(h.body, sub, {})
+                if isinstance(node, ast.If) and any(isinstance(x, ast.Raise) for x in node.body):
+                    exc = next(x for x in node.body if isinstance(x, ast.Raise)).exc
+                    cmp = next((x for x in ast.walk(node.test) if isinstance(x, ast.Compare)), None)
+                    if cmp is None:
+                        cmp = next((cmp_of[x.id] for x in ast.walk(node.test) if isinstance(x, ast.Name) and x.id in cmp_of), None)
+                    if cmp is None or len(cmp.ops) != 1:
+                        raise ValueError(f"{name}: unexpected guard {ast.unparse(node.test)}")
+                    rhs = ast.unparse(cmp.comparators[0])
+                    rhs = assigned.get(rhs, subst.get(rhs, rhs))
+                    g.append((type(cmp.ops[0]).__name__ + " " + rhs, exc.func.id if isinstance(exc, ast.Call) else ast.unparse(exc)))
+
+        collect(f.body, {}, {})
         guards.append((name, g))
     # molecules: does anything on the path molecules.py -> find_connected look at bond types?
     mol_src = open(os.path.join(base, "molecules.py")).read()
@@ -356,12 +454,14 @@ def gen_lean():
            "molecules.py": (mol, ["get_molecule_indices", "get_molecule_masks", "molecule_iter"])}
     for fn_file, (tree, names) in PUB.items():
         for name in names:
-            fdef = _func(tree, name)
-            sigs.append(_signature(fdef))
-            bodies.append((name, _norm_body(fdef)))
-        extra = [n.name for n in tree.body if isinstance(n, ast.FunctionDef) and n.name not in names]
-        if extra:
-            raise ValueError(f"{fn_file}: functions outside the modelled set: {extra}")
+            _func(tree, name)
+        hmap, defs = _private_helpers(tree, names)
+        for name in names:
+            sigs.append(_signature(defs[name]))
+            bodies.append((name, _norm_body(defs[name], hmap)))
+        for hname, alias in hmap.items():       # private helpers: part of the modelled code, under positional names
+            sigs.append(fn_file + ":" + _signature(defs[hname], alias))
+            bodies.append((fn_file + ":" + alias, _norm_body(defs[hname], hmap)))
         for node in tree.body:        # module-level state (caches, tables) next to the modelled functions
             if isinstance(node, (ast.Assign, ast.AnnAssign)):
                 tg = node.targets[0] if isinstance(node, ast.Assign) else node.target
